@@ -674,3 +674,16 @@ def primitives_exact(prog, chk, rid):
         else:
             chk.violation(rid, 'primitive|%s' % name, loc, '%s: %s' % (name, why))
     return len(facts)
+
+
+def deflate_complete(prog, chk, rid):
+    """Rule S6 of C03 under another property: finite evaluation of the compressor's chunk loop."""
+    from . import c02
+    ENG = 'djinterop::engine::'
+    zc = prog.func(ENG + 'zlib_compress')
+    chk.analysed(zc)
+    try:
+        c02._deflate_complete(prog, chk, rid, zc)
+        c02._pending_output(prog, chk, rid, zc, 'deflate')
+    except AnalysisBroken as e:
+        chk.fail_broken('%s: %s' % (rid, e))
